@@ -87,6 +87,11 @@ WITNESSES += [  # statements that carry trivia a coercion has to strip: trailing
     # undelimited sequences whose first / last element carries its own delimiters
     ('[a], [b]', 'pattern'), ('(a, b), (c)', 'pattern'), ('[a], b', 'pattern'), ('a, [b]', 'pattern'), ('[a], [b]', 'expr'),
     ('(a), (b)', 'expr'), ('{a}, {b: c}', 'expr'), ('(a)[0], (b)', 'expr'),
+    # names and constants that mean something else in another kind: the wildcard '_', singletons, signed / complex numbers
+    ('_', 'arguments'), ('_, a', 'arguments'), ('_=1, *_a', 'arguments'), ('_', 'expr'), ('_, a', 'expr'), ('[_, *_]', 'expr'),
+    ('f(_, k=_)', 'expr'), ('_', 'pattern'), ('a, _', 'pattern'), ('C(_, k=_)', 'pattern'), ('{1: _}', 'pattern'), ('_ | a', 'pattern'),
+    ('_, k=_', '_arglikes'), ('_', 'arg'), ('k=_', 'keyword'), ('_, a', '_pattern_attrlikes'), ('_', 'type_param'),
+    ('None, True', 'expr'), ("[None, 1, -1, 's', 1+2j, -1-2j]", 'expr'), ('None, -1, 1+2j', 'pattern'), ('_ as a', 'withitem'),
 ]
 
 MODES = ['all', 'strict', 'exec', 'eval', 'single', 'stmts', 'stmt', 'ExceptHandler', '_ExceptHandlers', 'match_case', '_match_cases',
